@@ -2393,16 +2393,25 @@ where
     usize: AsPrimitive<Pr>,
 {
     let is32 = F::NAME == "f32";
-    let n = (gen_len(rng, P as u32)).min(if P <= 3 { 7 } else { 60 });
+    // tables longer than `2^P` (possible for `P < Probability::BITS`): the free weight wraps, and only the
+    // final validation pass stands between the first pass and a model whose cdf runs past `2^P`
+    let oversized = P <= 8 && (P as u32) < Pr::BITS as u32 && rng.chance(1, 6);
+    let n = if oversized { (1usize << P) + 1 + (rng.next() % 5) as usize } else { (gen_len(rng, P as u32)).min(if P <= 3 { 7 } else { 60 }) };
     let mut v = gen_weights(rng, n, is32);
     corrupt(rng, &mut v);
     let tbl = to_bits_list(&v, is32);
     let replay = format!("quant.perfect {} {:x} {:x} {} -", F::NAME, Pr::BITS, P, show_list(tbl.clone()));
+    if oversized {
+        rep.count("perfect.oversized_table");
+    }
     let probs: Vec<F> = tbl.iter().map(|&b| F::from_bits_u(b)).collect();
     let res = guarded(|| perfect_weights::<F, Pr, P>(&tbl));
     rep.eval("C19");
     rep.eval("C20");
     match res {
+        // (a table with more than 2^P entries may end in a panic of the second distribution pass: a
+        // clean failure by C19's wording)
+        Err(_) if oversized => rep.count("perfect.oversized_panicked"),
         Err(class) => rep.fail("C19", format!("{} # {}", replay, class)),
         Ok(None) => rep.count("perfect.rejected"),
         Ok(Some(w)) => {
